@@ -50,6 +50,49 @@ pub fn current_query() -> Option<crate::query::QueryID> {
     CURRENT_QUERY.with(std::cell::Cell::get)
 }
 
+/// What a cycle search saw and decided (see `Engine::exit_scc`).
+#[derive(Debug, Clone)]
+pub struct CycleProbe {
+    /// The query that is being requested and is currently computing.
+    pub callee: crate::query::QueryID,
+    /// The computing query that requests it.
+    pub target: crate::query::QueryID,
+    /// The computing queries reachable from `callee`, each with the callees
+    /// it has registered so far.
+    pub edges: Vec<(crate::query::QueryID, Vec<crate::query::QueryID>)>,
+    /// Whether the search reported a dependency cycle.
+    pub found: bool,
+}
+
+/// The callback type for [`set_cycle_hook`].
+pub type CycleHook = Arc<dyn Fn(&CycleProbe) + Send + Sync>;
+
+static CYCLE_HOOK: RwLock<Option<CycleHook>> = RwLock::new(None);
+
+/// Installs (or removes) the process-wide cycle-search observer.
+pub fn set_cycle_hook(hook: Option<CycleHook>) {
+    *CYCLE_HOOK.write().unwrap_or_else(std::sync::PoisonError::into_inner) =
+        hook;
+}
+
+pub(crate) fn cycle_hook_installed() -> bool {
+    CYCLE_HOOK
+        .read()
+        .unwrap_or_else(std::sync::PoisonError::into_inner)
+        .is_some()
+}
+
+pub(crate) fn cycle_probe(probe: &CycleProbe) {
+    let hook = CYCLE_HOOK
+        .read()
+        .unwrap_or_else(std::sync::PoisonError::into_inner)
+        .clone();
+
+    if let Some(hook) = hook {
+        hook(probe);
+    }
+}
+
 /// Reports that the point `label` was reached.
 pub fn point(label: &'static str) {
     if !INSTALLED.load(Ordering::Relaxed) {
